@@ -57,6 +57,15 @@ type w2 struct {
 	ops     *opsWriter
 }
 
+// scrub overwrites, in place, the values a metadata accessor returned for key k
+// (what a handler redacting a credential before logging would do).
+func scrub(md metadata.MD, k string) {
+	vs := md.Get(k)
+	for i := range vs {
+		vs[i] = "SCRUBBED"
+	}
+}
+
 func tidOf(ch grpctunnel.TunnelChannel) int {
 	md, _ := metadata.FromIncomingContext(ch.Context())
 	if v := md.Get("tid"); len(v) > 0 {
@@ -76,11 +85,12 @@ func echoDesc(tid int) *grpc.ServiceDesc {
 		}
 		tmd, _ := grpctunnel.TunnelMetadataFromIncomingContext(ctx)
 		rmd, _ := metadata.FromIncomingContext(ctx)
-		// mutate what the accessor returned: must not be visible to anyone else
+		// mutate what the accessor returned, by key and in place: must not be visible to anyone else
 		tmd.Set("mutated", "yes")
+		scrub(tmd, "tid")
 		tmd2, _ := grpctunnel.TunnelMetadataFromIncomingContext(ctx)
 		return &wrapperspb.StringValue{Value: fmt.Sprintf("tid=%d tmd.tid=%s tmd.mut=%d req.x=%s", tid,
-			strings.Join(tmd.Get("tid"), ","), len(tmd2.Get("mutated")), strings.Join(rmd.Get("x"), ","))}, nil
+			strings.Join(tmd2.Get("tid"), ","), len(tmd2.Get("mutated")), strings.Join(rmd.Get("x"), ","))}, nil
 	}
 	return &grpc.ServiceDesc{ServiceName: "v.E", HandlerType: (*any)(nil),
 		Methods: []grpc.MethodDesc{{MethodName: "Who", Handler: h}}}
@@ -331,10 +341,11 @@ func identityDesc(name string) *grpc.ServiceDesc {
 		_, hasPeer := peer.FromContext(ctx)
 		tmd, ok := grpctunnel.TunnelMetadataFromIncomingContext(ctx)
 		tmd.Set("mutated", "yes")
+		scrub(tmd, "open")
 		tmd2, _ := grpctunnel.TunnelMetadataFromIncomingContext(ctx)
 		rmd, _ := metadata.FromIncomingContext(ctx)
 		return &wrapperspb.StringValue{Value: fmt.Sprintf("svc=%s tag=%s peer=%v tmdok=%v open=%s mut=%d x=%s", name, tag, hasPeer, ok,
-			strings.Join(tmd.Get("open"), ","), len(tmd2.Get("mutated")), strings.Join(rmd.Get("x"), ","))}, nil
+			strings.Join(tmd2.Get("open"), ","), len(tmd2.Get("mutated")), strings.Join(rmd.Get("x"), ","))}, nil
 	}
 	return &grpc.ServiceDesc{ServiceName: "v.I", HandlerType: (*any)(nil), Methods: []grpc.MethodDesc{{MethodName: "Who", Handler: h}},
 		Streams: []grpc.StreamDesc{{StreamName: "S", ClientStreams: true, ServerStreams: true, Handler: func(_ any, st grpc.ServerStream) error {
